@@ -256,6 +256,11 @@ func vrClosers(t *vcTrial) {
 	c.AddCloseCallback(func(Connection) error { return nil })
 	c.SetReadTimeout(time.Duration(r.rng(1, 20)) * time.Millisecond)
 	c.SetWriteTimeout(time.Duration(r.rng(1, 20)) * time.Millisecond)
+	if r.chance(60) {
+		// a small send buffer: the writer's sendmsg comes back short, the flush goes through the
+		// poller (Control(PollR2RW), waitFlush) and is in there when the closers arrive
+		vcSetBuf(c.(Conn).Fd(), 4<<10, 0)
+	}
 	var wg sync.WaitGroup
 	wg.Add(1)
 	go func() { // the one reader
